@@ -131,6 +131,8 @@ class C05(framework.PropertyCheck):
                 g, n = full[:cut], full[cut:]
                 if not (n[0].isalpha() or n[0] in '_.') or '<' in g[-1:] or not g[-1:].isalnum() and g[-1:] not in '._>':
                     continue
+                if n in ('t', 'f'):
+                    continue          # #t and #f are the boolean literals
                 add(f'(in-group "{g}" (list #{n} (get "{full}")))', ('val', ('L', True, (V(full), V(full)))))
             elif kind == 'missing':
                 sc = r.choice(SCOPES)
